@@ -185,6 +185,7 @@ class Explorer:
         # exact exceptions (for runs on concrete samples): a statement that certainly raises class C leaves the `try`
         # body there, the first handler that catches C runs from the state at that point, an uncaught C goes on to the
         # enclosing `try` or out of the function; handlers of a body that completes are not explored
+        self.instance_hook: Optional[Callable[[Any], Any]] = None  # turns a folded module-level object into a model object (rules/model.py)
         self.exact_exceptions = False
         self._frames: List[List[Tuple[str, Dict[str, Any]]]] = []
         # a heap (for single-path runs on concrete samples): plain lists and dicts are changed in place, so that a
@@ -263,6 +264,12 @@ class Explorer:
                 isinstance(e.value, ast.Name) and isinstance(env.get(e.value.id), dict)):
             # indexing / slicing a text or sequence the path knows
             base_ = self.value(e.value, env)
+            if isinstance(base_, dict) and not isinstance(base_, AbstractObject) and not isinstance(e.slice, ast.Slice):
+                k_b = self.value(e.slice, env)
+                if k_b is not UNKNOWN and not isinstance(k_b, (Text, AbstractObject, list, dict)):
+                    if k_b in base_:
+                        return base_[k_b]
+                    raise _PathRaises("KeyError")
             if isinstance(base_, (str, tuple, list)) and not isinstance(base_, Text):
                 if isinstance(e.slice, ast.Slice):
                     b3 = [self.value(x, env) if x is not None else None for x in (e.slice.lower, e.slice.upper, e.slice.step)]
@@ -444,6 +451,8 @@ class Explorer:
         if (isinstance(e, ast.Call) and self.enter_with and isinstance(e.func, ast.Attribute) and isinstance(e.func.value, ast.Name) and e.func.value.id == "copy"
                 and "copy" not in env and e.func.attr in ("deepcopy", "copy") and len(e.args) == 1 and not e.keywords):
             v_c = self.value(e.args[0], env)
+            if isinstance(v_c, AbstractObject) and hasattr(v_c, "peval_copy"):
+                return v_c.peval_copy(e.func.attr == "deepcopy")
             if _foldable(v_c):
                 import copy as _copy_mod
 
@@ -555,6 +564,9 @@ class Explorer:
                 # a pure method of a plain value the path knows (a table looked up with a known key)
                 recv = self.value(e.func.value, env)
                 plain = all(isinstance(a, (str, int, float, bool, type(None), tuple)) and not isinstance(a, Text) for a in args)
+                if (type(recv).__name__ == "Pattern" and type(recv).__module__ == "re" and e.func.attr in ("fullmatch", "match", "search") and len(args) == 1
+                        and isinstance(args[0], str) and not isinstance(args[0], Text)):
+                    return getattr(recv, e.func.attr)(args[0])  # a compiled pattern the rule supplied as an operand
                 if isinstance(recv, RegexConst) and e.func.attr in ("fullmatch", "match", "search") and len(args) == 1 and isinstance(args[0], str) and not isinstance(args[0], Text):
                     # a module-level compiled pattern (folded) applied to a text the path knows: stdlib `re` decides
                     import re as _re
@@ -635,6 +647,38 @@ class Explorer:
                 got_g = obj_g.peval_getattr(name_g)
                 if got_g is not UNKNOWN:
                     return got_g
+        if (isinstance(e, ast.Call) and self.enter_with and isinstance(e.func, ast.Name) and e.func.id in ("any", "all") and e.func.id not in env and not e.keywords
+                and len(e.args) == 1):
+            # any / all over items the path knows (a comprehension over known sequences, or a known sequence)
+            items_a = self._comprehension(e.args[0], env) if isinstance(e.args[0], (ast.GeneratorExp, ast.ListComp)) else self.value(e.args[0], env)
+            if isinstance(items_a, (list, tuple)):
+                truths: List[Optional[bool]] = []
+                for it_a in items_a:
+                    if it_a is UNKNOWN or isinstance(it_a, Text):
+                        truths.append(None)
+                    elif isinstance(it_a, AbstractObject):
+                        truths.append(None if not isinstance(it_a, (list, dict)) else bool(len(it_a)))
+                    else:
+                        try:
+                            truths.append(bool(it_a))
+                        except Exception:  # noqa: BLE001
+                            truths.append(None)
+                want_a = e.func.id == "any"
+                if any(t_a is want_a for t_a in truths):
+                    return want_a
+                if all(t_a is (not want_a) for t_a in truths):
+                    return not want_a
+        if (isinstance(e, ast.Call) and self.enter_with and isinstance(e.func, ast.Name) and e.func.id == "next" and "next" not in env and not e.keywords
+                and 1 <= len(e.args) <= 2 and isinstance(e.args[0], ast.Call) and isinstance(e.args[0].func, ast.Name)  # noqa: PLR2004
+                and e.args[0].func.id == "iter" and "iter" not in env and len(e.args[0].args) == 1 and not e.args[0].keywords):
+            # `next(iter(x))`: the first element of a container the path knows (of a mapping: its first key)
+            box_n = self.value(e.args[0].args[0], env)
+            if isinstance(box_n, (list, tuple, dict)) and not isinstance(box_n, AbstractObject):
+                for first_n in box_n:
+                    return first_n
+                if len(e.args) == 2:  # noqa: PLR2004
+                    return self.value(e.args[1], env)
+                raise _PathRaises("StopIteration")
         if (isinstance(e, ast.Call) and self.enter_with and isinstance(e.func, ast.Name) and e.func.id == "next" and "next" not in env and not e.keywords
                 and 1 <= len(e.args) <= 2 and isinstance(e.args[0], (ast.GeneratorExp, ast.ListComp))):  # noqa: PLR2004
             # the first item a comprehension over known sequences produces, or the default
@@ -669,7 +713,31 @@ class Explorer:
         except NotConst:
             return UNKNOWN
         # a reference to something outside the package (or to an unbound `self`) is not a value
+        if isinstance(v, Instance) and self.instance_hook is not None:
+            return self.instance_hook(v)
+        if self.enter_with:
+            v = self._lift(v)
         return UNKNOWN if isinstance(v, ExtRef) else v
+
+    def _lift(self, v: Any, depth: int = 0) -> Any:
+        """Functions inside a folded constant table (`(("&&",), _always, lambda env, a, b: ...)`) as callables the path
+        can apply: a folded lambda with the (empty) scope of the module level, a function of the package."""
+        from .consteval import Closure as _Closure
+
+        if isinstance(v, _Closure):
+            la = v.node.args
+            if la.vararg or la.kwarg or la.kwonlyargs or la.defaults or la.posonlyargs:
+                return UNKNOWN
+            return Callable_("lambda", node=v.node, env={})
+        if isinstance(v, FuncRef):
+            return Callable_("func", v.func.name, node=v.func)
+        if depth < 4 and isinstance(v, tuple) and any(isinstance(x, (_Closure, FuncRef, tuple, list)) for x in v):
+            return tuple(self._lift(x, depth + 1) for x in v)
+        if depth < 4 and isinstance(v, list) and any(isinstance(x, (_Closure, FuncRef, tuple, list)) for x in v):
+            return [self._lift(x, depth + 1) for x in v]
+        if depth < 4 and isinstance(v, dict) and any(isinstance(x, (_Closure, FuncRef, tuple, list)) for x in v.values()):
+            return {k: self._lift(x, depth + 1) for k, x in v.items()}
+        return v
 
     def _propagate(self, cls: str, env: Dict[str, Any], at: ast.stmt) -> None:
         if self._frames:
@@ -793,6 +861,13 @@ class Explorer:
             inner = dict(f.env)
             inner.update(zip(params, args))
             return self.value(f.node.body, inner)
+        if f.kind == "func":
+            if self.call_function is None:
+                return UNKNOWN
+            r_f = self.call_function(f.node, list(args))
+            if type(r_f).__name__ == "_Raises":
+                raise _PathRaises("callee raises")
+            return r_f
         if f.kind == "def":
             params = [a.arg for a in f.node.args.args]
             if len(params) != len(args):
@@ -880,12 +955,28 @@ class Explorer:
 
     def _test(self, t: ast.expr, env: Dict[str, Any]) -> Optional[bool]:
         if (isinstance(t, ast.Call) and isinstance(t.func, ast.Name) and t.func.id == "isinstance" and len(t.args) == 2  # noqa: PLR2004
-                and isinstance(t.args[0], (ast.Name, ast.Attribute))):
+                and (isinstance(t.args[0], (ast.Name, ast.Attribute)) or (self.enter_with and isinstance(t.args[0], (ast.Call, ast.Subscript))))):
             subj = self.value(t.args[0], env)
+            if type(subj).__name__ == "Pattern" and type(subj).__module__ == "re":
+                from .kinds import class_names as _cn
+
+                nm_ = _cn(t.args[1])
+                if nm_ is not None:
+                    return any(x.split(".")[-1] == "Pattern" for x in nm_)
             if isinstance(subj, AbstractObject):
                 from .kinds import class_names
 
                 names = class_names(t.args[1])
+                if names is not None and len(names) == 1 and isinstance(t.args[1], ast.Name) and self.enter_with:
+                    # a name that stands for a tuple of classes (`VALUE_TYPE_EXPRESSIONS`, maybe imported)
+                    try:
+                        tv_ = self.folder.global_value(self.fn.module, t.args[1].id) if t.args[1].id not in env else None
+                    except Exception:  # noqa: BLE001
+                        tv_ = None
+                    from .consteval import ClassRef as _CRi
+
+                    if isinstance(tv_, (tuple, list)) and tv_ and all(isinstance(x, (_CRi, ExtRef)) for x in tv_):
+                        names = [x.cls.qualname if isinstance(x, _CRi) else str(x.name).split(".")[-1] for x in tv_]
                 if names is not None:
                     return subj.peval_isinstance(names)
             elif self.enter_with and isinstance(subj, Instance):
@@ -1163,6 +1254,32 @@ class Explorer:
                         continue
                 raise AnalysisError(f"partial evaluation of {self.fn.qualname}: `{ast.unparse(s)[:60]}` cannot be followed")
             return [env]
+        if isinstance(s, ast.Delete) and not self.heap and all(
+                isinstance(t_d, ast.Subscript) and isinstance(t_d.value, ast.Name) for t_d in s.targets):
+            # `del xs[i]` / `del xs[a:b]` on a local: a list the path built itself is replaced by the shorter list in this
+            # path's environment; anything else becomes unknown
+            env = dict(env)
+            for t_d in s.targets:
+                name_d = t_d.value.id  # type: ignore[attr-defined]
+                cur_d = env.get(name_d)
+                new_d: Any = UNKNOWN
+                if isinstance(cur_d, list) and not isinstance(cur_d, AbstractObject):
+                    sl = t_d.slice  # type: ignore[attr-defined]
+                    if isinstance(sl, ast.Slice):
+                        bounds = [None if b is None else self.value(b, env) for b in (sl.lower, sl.upper, sl.step)]
+                        if all(b is None or (isinstance(b, int) and not isinstance(b, bool)) for b in bounds):
+                            new_d = list(cur_d)
+                            del new_d[slice(*bounds)]
+                    else:
+                        k_d = self.value(sl, env)
+                        if isinstance(k_d, int) and not isinstance(k_d, bool):
+                            new_d = list(cur_d)
+                            try:
+                                del new_d[k_d]
+                            except IndexError as err:
+                                raise _PathRaises("IndexError") from err
+                env[name_d] = new_d
+            return [env]
         if (isinstance(s, ast.Expr) and self.enter_with and not self.heap and isinstance(s.value, ast.Call) and isinstance(s.value.func, ast.Attribute)
                 and isinstance(s.value.func.value, ast.Name) and isinstance(env.get(s.value.func.value.id), list)
                 and s.value.func.attr in ("append", "extend", "insert") and not s.value.keywords):
@@ -1372,6 +1489,8 @@ class Explorer:
                 raise AnalysisError(f"partial evaluation of {self.fn.qualname}: the test of a `while` loop is decided at first and then not")
         if isinstance(s, (ast.For, ast.AsyncFor)) and self.enter_loops and (isinstance(s, ast.For) or self.enter_with):
             seq = self.value(s.iter, env)
+            if self.heap and not isinstance(seq, (tuple, list)):
+                raise AnalysisError(f"partial evaluation of {self.fn.qualname}: a loop over `{ast.unparse(s.iter)[:60]}`, whose items are not known")
             if not isinstance(seq, (tuple, list)) and s.orelse:
                 raise AnalysisError(f"partial evaluation of {self.fn.qualname}: for/else over an unknown sequence")
             if isinstance(seq, (tuple, list)) and len(seq) <= 64:  # noqa: PLR2004
